@@ -35,7 +35,7 @@ def run(run, model):
     run.do(c04.post_collapse, model, "C02.inherited-post")
     run.do(c04.base_loop_table, model, "C02.inherited-base-loop")
     # the exception of the body reaches the caller: the give-back of the marker in the ``finally`` does not fail on the way
-    run.do(marker.report_rule, model, "C11.release-on-all-exits", marker.MARKER_REGIONS, "no exit is reached with the marker held", as_rule="C02.marker-given-back")
+    run.do(marker.report_rule, model, "C11.release-on-all-exits", marker.MARKER_REGIONS_ALL, "no exit is reached with the marker held", as_rule="C02.marker-given-back")
     from . import effects
     run.do(effects.no_memo, model, "C02.no-memo")
     run.do(c05.order_identity, model, "C02.args-order", "C02.args-identity")
